@@ -23,7 +23,7 @@ import (
 var c16Relay = []string{"", "plain", `"><script>alert(1)</script>`, `' onmouseover='x`, "a&b", "&quot;", "line1\nline2", "</form>", "ünï", "a b", "`backtick`", `back\slash`, "{{.}}", "a+b", "<!--", "&#34;", `" autofocus onfocus="x`, "\x00nul", "</script><script>alert(1)</script>", " lead", "trail ", " ", "line\u2028sep", `é" autofocus onfocus=alert(1) x="`, `日本語"><script>alert(1)</script>`, "ü&amp;<b>", "😀'onmouseover='x",
 	strings.Repeat("r", 80), strings.Repeat("r", 81), strings.Repeat("long-relay-", 190), strings.Repeat("a", 79) + "日本" + `"><x>`, strings.Repeat("é", 41), strings.Repeat("relay&state=", 400)}
 var c16Builders = []string{"BuildAuthBodyPost", "BuildAuthBodyPostFromDocument", "BuildLogoutBodyPostFromDocument", "BuildLogoutResponseBodyPostFromDocument"}
-var c16Docs = []string{"signed", "unsigned", "non-ascii"}
+var c16Docs = []string{"signed", "unsigned", "non-ascii", "caller-assembled"}
 var c16Endpoints = []string{"https://idp.example.com/sso", "https://idp.example.com/sso?tenant=a&mode=b"}
 
 type c16Case struct {
@@ -144,7 +144,22 @@ func c16Build(sp *saml2.SAMLServiceProvider, c c16Case) (out []byte, docBytes []
 		if c16Docs[c.Doc] == "non-ascii" {
 			doc.Root().CreateElement("note").SetText("ünïcödé & <markup> \"q\" + " + strings.Repeat("日本語😀", 20))
 		}
+		if c16Docs[c.Doc] == "caller-assembled" {
+			// a document the caller put together itself (default write settings) around a copy of
+			// the element
+			own := etree.NewDocument()
+			own.SetRoot(doc.Root().Copy())
+			doc = own
+		}
 		docBytes, _ = doc.WriteToBytes()
+		defer func() {
+			// the caller's document is an input: it is still what it was, and a second page made
+			// from it carries the same message
+			after, _ := doc.WriteToBytes()
+			if err == nil && string(after) != string(docBytes) {
+				err = fmt.Errorf("HARNESS-OBSERVED: the builder changed the document it was given (%d bytes before, %d after)", len(docBytes), len(after))
+			}
+		}()
 		// the page is rendered under this case's endpoint
 		sp.IdentityProviderSSOURL = c16Endpoints[c.Endpoint]
 		sp.IdentityProviderSLOURL = strings.Replace(c16Endpoints[c.Endpoint], "/sso", "/slo", 1)
@@ -167,6 +182,9 @@ func c16JudgePage(sp *saml2.SAMLServiceProvider, c c16Case, out, docBytes []byte
 	kp := "C16/" + b + "/"
 	if p != "" {
 		return []string{kp + "panic"}, detail, "panic"
+	}
+	if err != nil && strings.HasPrefix(err.Error(), "HARNESS-OBSERVED") {
+		return []string{kp + "input-document-modified"}, detail, "DIFFERS"
 	}
 	if err != nil {
 		return []string{kp + "error"}, detail, "ERROR"
@@ -401,7 +419,7 @@ func c16Replay(raw json.RawMessage) ([]string, string) {
 }
 
 func c16Run(r *mc.Run) {
-	r.Rule = "full product relay state(33: quotes, angle brackets, script and attribute-injection payloads, ampersands, character references, newline, U+2028, backtick, backslash, template syntax, plus, comment opener, NUL, lengths 80/81/82+/2090/4800 bytes with multi-byte characters across byte 80) x builder(4) x document(3: signed, unsigned, non-ASCII) x endpoint(2: plain, with & query) x document built under this or under the other endpoint x SignAuthnRequests(2, BuildAuthBodyPost), plus relay states assembled from every sequence of 2 (quick) / 2-3 (thorough) of 28 injection fragments x builder(4); oracle = a strict HTML tokenizer (anything needing browser error recovery is rejected) and a reading of the page as a browser would: exactly one form, action = the endpoint, method POST, exactly one message field inside it = base64 of exactly the document, a RelayState field iff non-empty decoding to exactly the value, no binding field anywhere else, a script that submits; and the token skeleton (every tag, attribute, attribute value, text and script except those three values) equal to the skeleton of the page the same builder makes for a plain relay state, so that nothing else can depend on the relay state or the document. non-trivial = a page was produced and tokenized; distinct = distinct case"
+	r.Rule = "full product relay state(33: quotes, angle brackets, script and attribute-injection payloads, ampersands, character references, newline, U+2028, backtick, backslash, template syntax, plus, comment opener, NUL, lengths 80/81/82+/2090/4800 bytes with multi-byte characters across byte 80) x builder(4) x document(4: signed, unsigned, non-ASCII, assembled by the caller with default write settings; the document must be unchanged afterwards) x endpoint(2: plain, with & query) x document built under this or under the other endpoint x SignAuthnRequests(2, BuildAuthBodyPost), plus relay states assembled from every sequence of 2 (quick) / 2-3 (thorough) of 28 injection fragments x builder(4); oracle = a strict HTML tokenizer (anything needing browser error recovery is rejected) and a reading of the page as a browser would: exactly one form, action = the endpoint, method POST, exactly one message field inside it = base64 of exactly the document, a RelayState field iff non-empty decoding to exactly the value, no binding field anywhere else, a script that submits; and the token skeleton (every tag, attribute, attribute value, text and script except those three values) equal to the skeleton of the page the same builder makes for a plain relay state, so that nothing else can depend on the relay state or the document. non-trivial = a page was produced and tokenized; distinct = distinct case"
 	var cases []c16Case
 	mc.Enumerate(-1, r.Expired, func(ch *mc.Chooser) {
 		c := c16Case{}
